@@ -235,6 +235,19 @@ def run_one(src, view=False, raw_view=False):
                 out['detail'] = '%s: %s' % (type(e).__name__, str(e)[:80])
             if ast.dump(tree) != before:
                 out['mutated'] = 'ast'
+            if not view:
+                # the same transaction as the statement readers build it: its date is a datetime.datetime (with a time of day).
+                # Whatever the evaluation makes of it, the caller's transaction comes out as it went in
+                txn2 = copy.deepcopy(TXN)
+                if isinstance(txn2.get('date'), datetime.date) and not isinstance(txn2['date'], datetime.datetime):
+                    txn2['date'] = datetime.datetime.combine(txn2['date'], datetime.time(10, 30, 15))
+                keep = copy.deepcopy(txn2)
+                try:
+                    EP.evaluate_transaction(src, txn2, copy.deepcopy(VARS), copy.deepcopy(DS))
+                except BaseException:
+                    pass
+                if txn2 != keep or type(txn2.get('date')) is not type(keep.get('date')):
+                    out['mutated'] = 'transaction (date given as datetime)'
     finally:
         _armed[0] = False
     ev = [e for e in _events if not (e[0] == 'compile' and e[1] == 'parse')]
